@@ -350,6 +350,99 @@ class C06(Prop):
                     out.append(('law', 'proposals for %s do not follow the truncated Gaussian about the current state (KS p=%g)' % (kk, p), None))
         return out
 
+    def extra(self, rng, tier):
+        """Whole-run checks: (1) the density of the dimension-balancing draw used by the acceptance rule is a density (mass one on the source-type
+        box) for unequal widths of the two coordinates; (2) with the reflect options every proposal stays in the domain, also for widths at their
+        maxima, states at the ends of the ranges and draws many widths out."""
+        import math
+        np, mc = self.np, self.mc
+        fails, cov = [], {'balancing_density_mass': [], 'reflect_option_proposals': 0}
+        xg, wg_ = np.polynomial.legendre.leggauss(160)
+        xd, wd_ = np.polynomial.legendre.leggauss(320)
+        for sg, sd in ([(0.5, 0.15), (0.1, 0.9)] if tier == 'quick' else [(0.5, 0.15), (0.1, 0.9), (0.2, 0.2), (1.0, 0.3), (0.05, 2.0)]):
+            alg = mc.IterativeTransDMetropolisHastingsGaussianTape(dc_sigma_g=sg, dc_sigma_d=sd, learning_length=5, chain_length=5)
+            tot = 0.0
+            for gi, wi in zip(xg * math.pi / 6, wg_):
+                tot += wi * math.pi / 6 * sum(wj * float(alg.jump_params({'gamma': float(gi), 'delta': float(dj)})) for dj, wj in zip(xd * math.pi / 2, wd_)) * math.pi / 2
+            cov['balancing_density_mass'].append({'sigma_g': sg, 'sigma_d': sd, 'mass': tot})
+            if abs(tot - 1.0) > 1e-4:
+                fails.append(Failure('property', {'kind': 'balancing-density-mass', 'sigma_g': sg, 'sigma_d': sd},
+                                     'the density of the dimension-balancing draw that the acceptance rule uses integrates to %r over the source-type box for widths '
+                                     '(%r, %r): the draw (a truncated Gaussian, mass one) is not distributed as the acceptance rule assumes' % (tot, sg, sd),
+                                     key='balancing-density-mass'))
+        # reflect options
+        big = [4.5, -5.2, 3.9, 6.5, -4.1, 0.3, -0.2, 5.8, -6.3, 2.7, 0.1, -3.3]
+        o = np.random.randn
+        try:
+            for dc in (False, True):
+                for opt in ({'reflect_dip': True}, {'reflect_sigma': True}, {'reflect_gamma': True, 'reflect_delta': True},
+                            {'reflect_dip': True, 'reflect_sigma': True, 'reflect_gamma': True, 'reflect_delta': True}):
+                    alg = mc.IterativeMetropolisHastingsGaussianTape(dc=dc, learning_length=5, chain_length=5, **opt)
+                    alg.alpha = dict(alg.max_alpha)            # widths at their configured maxima
+                    for xi in ({'gamma': 0.0 if dc else 0.5, 'delta': 0.0 if dc else 1.5, 'kappa': 1.0, 'h': 0.98, 'sigma': 1.5},
+                               {'gamma': 0.0 if dc else -0.52, 'delta': 0.0 if dc else -1.55, 'kappa': 6.2, 'h': 0.01, 'sigma': -1.56}):
+                        for start in range(len(big)):
+                            pos = [start]
+
+                            def randn(*a):
+                                z = big[pos[0] % len(big)]
+                                pos[0] += 1
+                                return np.array([z]) if a else z
+                            alg.xi = dict(xi)
+                            np.random.randn = randn
+                            try:
+                                x = alg._new_sample_single()
+                            finally:
+                                np.random.randn = o
+                            cov['reflect_option_proposals'] += 1
+                            v = {k_: float(np.asarray(x[k_]).flatten()[0]) for k_ in ('gamma', 'delta', 'kappa', 'h', 'sigma') if k_ in x}
+                            bad = [k_ for k_, (lo, hi) in {'gamma': (-math.pi / 6, math.pi / 6), 'delta': (-math.pi / 2, math.pi / 2), 'kappa': (0, 2 * math.pi),
+                                                          'h': (0, 1), 'sigma': (-math.pi / 2, math.pi / 2)}.items() if k_ in v and not (lo <= v[k_] <= hi)]
+                            if bad:
+                                fails.append(Failure('property', {'kind': 'reflect-domain', 'options': opt, 'dc': dc, 'xi': xi, 'draws_from': start},
+                                                     'with %r a proposal from %r (widths at their maxima, normal deviates %r...) leaves the domain: %r'
+                                                     % (opt, xi, big[start:start + 3], {k_: v[k_] for k_ in bad}), key='reflect-domain'))
+        finally:
+            np.random.randn = o
+        # (3) double-couple constrained chains started from the grid initialiser: whatever tensor the initialiser hands over (its conversion to
+        # source-type coordinates carries round-off of a few 1e-16), every proposal of the chain is exactly a double-couple
+        nchains = 250 if tier == 'quick' else 1500
+        from MTfit.probability import LnPDF
+        import types
+        gc0 = mc.gc
+        mc.gc = types.SimpleNamespace(collect=lambda *a, **k: 0)
+        rs = np.random.RandomState(20250 + (0 if tier == 'quick' else 1))
+        st = np.random.get_state()
+        cov['grid_started_dc_chains'] = nchains
+        try:
+            np.random.seed(4242)
+            nbad, eg = 0, None
+            for c_ in range(nchains):
+                alg = mc.IterativeMetropolisHastingsGaussianTape(dc=True, initial_sample='grid', number_samples=4, min_number_initialisation_samples=0,
+                                                                 learning_length=5, chain_length=20, acceptance_rate_window=5)
+                mts, _e = alg.initialise()
+                mts = np.asarray(mts)
+                first, _e = alg.iterate({'moment_tensors': mts, 'ln_pdf': LnPDF(np.log(rs.rand(1, mts.shape[1]))), 'n': mts.shape[1]})
+                if alg._initialising:
+                    continue
+                prop, _e = alg.iterate({'moment_tensors': first, 'ln_pdf': LnPDF(np.array([[-1.0]])), 'n': 1})
+                for k_ in range(3):
+                    x = alg.xi_1
+                    g_, d_ = float(np.asarray(x['gamma']).flatten()[0]), float(np.asarray(x['delta']).flatten()[0])
+                    if g_ != 0.0 or d_ != 0.0:
+                        nbad += 1
+                        eg = eg or (c_, g_, d_)
+                        break
+                    alg.new_sample()
+            if nbad:
+                fails.append(Failure('property', {'kind': 'grid-start-dc', 'chains': nchains},
+                                     '%d of %d double-couple constrained chains started from the grid initialiser proposed states that are not double-couples '
+                                     '(chain %d: gamma=%r, delta=%r)' % (nbad, nchains, eg[0], eg[1], eg[2]), key='grid-start-dc'))
+        finally:
+            np.random.set_state(st)
+            mc.gc = gc0
+        return cov, fails[:4]
+
     def nontrivial(self, case, impl):
         if case['kind'] in ('shift', 'transd'):
             return isinstance(impl, dict) and impl.get('consumed', 0) > (3 if case['dc'] else 5)
